@@ -746,3 +746,12 @@ PROPERTIES["C02"]["mirsym"].append(
       budget={"quick": 300, "thorough": 300},
       required_covers=["c02.send-multipart.push", "c02.send-multipart.pub", "c02.send-multipart.dealer"]))
 PROPERTIES["C02"]["manifest"]["text"] += " PUSH, PUB and DEALER send_multipart hand on exactly the frames given (DEALER behind the empty delimiter), in order, with MORE on every frame but the last, whatever flags the application set; REQ puts [delimiter (MORE), request (no MORE)] on the wire."
+PROPERTIES["C15"]["mirsym"].append(
+    M("c15_linger_decision", "d_c15", "linger_decision",
+      {"quick": "ShutdownCoordinator::{start_linger_if_needed, is_linger_expired_or_queues_empty} (the socket core's LINGER decision) in the Lingering phase; LINGER in {-1, 0, any positive value up to i32::MAX ms (symbolic)}; 0..2 socket-to-session pipes holding 0..1 messages each; symbolic monotone clock behind Instant::now(); 3 steps from {time passes, a pipe drains, the periodic check calls start_linger_if_needed again}, the decision evaluated after each",
+       "thorough": "4 steps"},
+      params={"quick": {"ticks": 3}, "thorough": {"ticks": 4}}, budget={"quick": 300, "thorough": 900},
+      required_covers=["c15.linger.finished-because-empty", "c15.linger.infinite-keeps-waiting", "c15.linger.zero-finishes", "c15.linger.within-interval", "c15.linger.expired"]))
+PROPERTIES["C15"]["manifest"]["text"] += " Second kernel, the socket core's LINGER decision: done as soon as every socket-to-session pipe is empty; with LINGER -1 never while a message is queued; with LINGER 0 at once; with a positive LINGER exactly when (start of lingering + LINGER) has passed on the clock - for every LINGER value and every clock, also when the periodic check re-enters start_linger_if_needed."
+PROPERTIES["C15"]["manifest"]["note"] = PROPERTIES["C15"]["manifest"]["note"].replace("the socket core's linger timer and deadline, LINGER=0 returning promptly, bounded duration of close/term", "that the core's loop evaluates the decision often enough and then actually stops the sessions (bounded duration of close/term end to end)")
+PROPERTIES["C15"]["outside"] = "end-to-end duration of close/term, kernel buffers, inproc, handle drop"
